@@ -173,3 +173,5 @@ func C08Scenarios() []sched.Scenario {
 	}
 	return out
 }
+
+func schedPoint() { vsyncPoint() }
